@@ -33,6 +33,7 @@ type specEnv struct {
 	binds map[string]SV
 	err   error
 	loop  *Loop
+	renaming bool // resolving a renamed variable (no second attempt)
 }
 
 func (e *specEnv) fail(f string, a ...interface{}) SV {
@@ -414,6 +415,15 @@ func (e *specEnv) ident(name string) SV {
 			if sv, ok := e.member(hp, name); ok {
 				return sv
 			}
+		}
+	}
+	// a variable that was only renamed since the contracts were written (see names.go)
+	if !e.renaming {
+		if nn := e.x.renamedTo(fn, name); nn != "" {
+			e.renaming = true
+			v := e.ident(nn)
+			e.renaming = false
+			return v
 		}
 	}
 	return e.fail("unknown identifier %q", name)
